@@ -105,6 +105,9 @@ def handle (j : Json) : Except String Json := do
   | "gen" =>       -- the definition regenerated from SQLBuilder.STRING_SLICE
       let e ← argPy j "expr"; let a ← argPy j "start"; let b ← argPy j "stop"
       pure (jsonOfPyM (PonyVerif.Gen.stringSlice e a b (.str (← argStr j "dialect"))))
+  | "gen_sqlite" =>   -- the definition regenerated from SQLiteBuilder.STRING_SLICE
+      let e ← argPy j "expr"; let a ← argPy j "start"; let b ← argPy j "stop"
+      pure (jsonOfPyM (PonyVerif.Gen.sqliteStringSlice e a b))
   | "mirror" =>    -- typed mirror (what the theorems are about), encoded back
       let d ← dialectOf j
       let e ← sqlOf (← j.getObjVal? "expr")
